@@ -49,13 +49,17 @@ func (rt *runtime) cmplEvaluateNodeExpression(node nodeExpression) Value {
 
 	case *nodeFunctionLiteral:
 		local := rt.scope.lexical
-		if node.name != "" {
-			local = rt.newDeclarationStash(local)
+		if node.name == "" {
+			return objectValue(rt.newNodeFunction(node, local))
 		}
 
-		value := objectValue(rt.newNodeFunction(node, local))
-		if node.name != "" {
-			local.createBinding(node.name, false, value)
+		// The name of a function expression is an immutable binding
+		// in a scope of its own (ES5 13): assignments to it are ignored.
+		stash := rt.newDeclarationStash(local)
+		value := objectValue(rt.newNodeFunction(node, stash))
+		stash.property[node.name] = dclProperty{
+			value:    value,
+			readable: true,
 		}
 		return value
 
